@@ -14,20 +14,25 @@ void vp_sync_point(void); /* a schedule point of the sequentialised schedule (de
 int vp_timeout_at = -1, vp_timed_seen;
 uint64_t vp_clock_now;
 
+extern VP_THREAD_LOCAL int vp_tid;
+#define VP_ME ((uint64_t)vp_tid + 1)   /* the mutex word holds its owner: logical thread + 1, 0 = free */
 int pthread_mutex_lock(uint64_t m) {
   vp_sync_point();
-  VP_ASSUME(vp_ld(m, 8) == 0);
-  vp_st(m, 8, 1);
+  if (vp_ld(m, 8) == VP_ME) { VP_FAIL("deadlock: a thread locks a non-recursive mutex that it already holds"); VP_ASSUME(0); }
+  VP_ASSUME(vp_ld(m, 8) == 0);   /* held by another logical thread: that thread cannot continue underneath -> infeasible nesting */
+  vp_st(m, 8, VP_ME);
+  vp_hb_lock_acquire(m);
   return 0;
 }
 int pthread_mutex_trylock(uint64_t m) {
   vp_sync_point();
   if (vp_ld(m, 8) != 0) return 16; /* EBUSY */
-  vp_st(m, 8, 1);
+  vp_st(m, 8, VP_ME);
   return 0;
 }
 int pthread_mutex_unlock(uint64_t m) {
-  VP_ASSERT(vp_ld(m, 8) == 1, "unlock of a mutex that is not locked");
+  VP_ASSERT(vp_ld(m, 8) != 0, "unlock of a mutex that is not locked");
+  vp_hb_lock_release(m);
   vp_st(m, 8, 0);
   vp_sync_point();
   return 0;
@@ -36,7 +41,8 @@ int pthread_mutex_init(uint64_t m, uint64_t attr) { vp_st(m, 8, 0); return 0; }
 int pthread_mutex_destroy(uint64_t m) { VP_ASSERT(vp_ld(m, 8) == 0, "mutex destroyed while locked"); return 0; }
 
 static void vp_block_on_cv(uint64_t mutex_addr) {
-  VP_ASSERT(vp_ld(mutex_addr, 8) == 1, "condition variable wait without holding the mutex");
+  VP_ASSERT(vp_ld(mutex_addr, 8) == VP_ME, "condition variable wait without holding the mutex");
+  vp_hb_lock_release(mutex_addr);
   vp_st(mutex_addr, 8, 0);
   if (!vp_yield_to_pending()) {
     /* nobody else can run any more */
@@ -46,7 +52,8 @@ static void vp_block_on_cv(uint64_t mutex_addr) {
     VP_ASSUME(0);
   }
   VP_ASSUME(vp_ld(mutex_addr, 8) == 0);
-  vp_st(mutex_addr, 8, 1);
+  vp_st(mutex_addr, 8, VP_ME);
+  vp_hb_lock_acquire(mutex_addr);
 }
 /* std::condition_variable */
 void _ZNSt18condition_variableC1Ev(uint64_t cv) { vp_st(cv, 8, 0); }
@@ -64,10 +71,12 @@ int pthread_cond_clockwait(uint64_t cv, uint64_t m, uint32_t clk, uint64_t ts) {
   int fire = (vp_timeout_at >= 0 && vp_timed_seen == vp_timeout_at);
   vp_timed_seen++;
   if (fire) { /* deadline passes before anybody notifies; other threads may still run around it */
+    vp_hb_lock_release(m);
     vp_st(m, 8, 0);
     vp_sync_point();
     VP_ASSUME(vp_ld(m, 8) == 0);
-    vp_st(m, 8, 1);
+    vp_st(m, 8, VP_ME);
+    vp_hb_lock_acquire(m);
     vp_clock_now += 1000000000UL;
     return 110; /* ETIMEDOUT */
   }
@@ -81,8 +90,8 @@ int64_t _ZNSt6chrono3_V212system_clock3nowEv(void) { vp_clock_now += 1; return (
 void _ZSt20__throw_system_errori(int e) { VP_FAIL("std::__throw_system_error"); }
 
 /* model of yaclib::detail::Spinlock (harness/model_include): see the comment there */
-void vp_spin_lock(uint64_t w, uint32_t sz) { vp_sync_point(); VP_ASSUME(vp_ld(w, (int)sz) == 0); vp_st(w, (int)sz, 1); }
-void vp_spin_unlock(uint64_t w, uint32_t sz) { VP_ASSERT(vp_ld(w, (int)sz) == 1, "unlock of a spinlock that is not locked"); vp_st(w, (int)sz, 0); vp_sync_point(); }
+void vp_spin_lock(uint64_t w, uint32_t sz) { vp_sync_point(); VP_ASSUME(vp_ld(w, (int)sz) == 0); vp_st(w, (int)sz, 1); vp_hb_lock_acquire(w); }
+void vp_spin_unlock(uint64_t w, uint32_t sz) { VP_ASSERT(vp_ld(w, (int)sz) == 1, "unlock of a spinlock that is not locked"); vp_hb_lock_release(w); vp_st(w, (int)sz, 0); vp_sync_point(); }
 
 /* ---- std::thread (sequentialised): starting a thread registers its body as work of the scenario; the harness names which pending
  * unit runs it (vp_thread_body(n)); join blocks = lets pending units run, and fails if the thread can never finish. */
